@@ -87,6 +87,8 @@ func c12RoundTrip[T cborMarshaler](env *SymEnv, pfx string, v T, fresh func() (c
 	bad("trailing byte", append(append([]byte(nil), b1...), 0x00))
 	bad("truncated by one byte", b1[:len(b1)-1])
 	bad("empty input", nil)
+	bad("CBOR null", []byte{0xf6})
+	bad("CBOR undefined", []byte{0xf7})
 	// container-level surgery on the outer map
 	var m map[string]cbor.RawMessage
 	if err := cbor.Unmarshal(b1, &m); err == nil && len(m) > 0 && len(m) < 22 && b1[0] == byte(0xa0+len(m)) {
@@ -103,6 +105,36 @@ func c12RoundTrip[T cborMarshaler](env *SymEnv, pfx string, v T, fresh func() (c
 		ukb, _ := cbor.Marshal("zz_unknown")
 		bad("unknown field", append(append(append([]byte{byte(0xa0 + len(m) + 1)}, body...), ukb...), 0x01))
 		bad("indefinite-length map", append(append([]byte{0xbf}, body...), 0xff))
+		// structure-preserving mutation: each field in turn replaced by null / undefined. A pointer
+		// field becomes nil without its decoder being called, a value field's decoder is called with
+		// the null: neither may panic (a field that is legitimately optional may be accepted).
+		dec := cbor.NewDecoder(bytes.NewReader(body))
+		var keys, vals []cbor.RawMessage
+		for i := 0; i < len(m); i++ {
+			var k, v cbor.RawMessage
+			if dec.Decode(&k) != nil || dec.Decode(&v) != nil {
+				keys = nil
+				break
+			}
+			keys, vals = append(keys, k), append(vals, v)
+		}
+		for i := range keys {
+			for _, nul := range []byte{0xf6, 0xf7} {
+				mut := []byte{b1[0]}
+				for j := range keys {
+					mut = append(mut, keys[j]...)
+					if j == i {
+						mut = append(mut, nul)
+					} else {
+						mut = append(mut, vals[j]...)
+					}
+				}
+				t, _ := fresh()
+				if c12DecodeBytes(env, fmt.Sprintf("%s/field %d ← %#x", pfx, i, nul), mut, t) {
+					env.Reach(pfx + "/a null field is accepted (optional field)")
+				}
+			}
+		}
 	}
 }
 
